@@ -44,9 +44,35 @@ def has_hash_in_condition(model):
     return any(35 in c[1] for _, c in model[2])
 
 
+def theorem_check(ctx, items):
+    """items: (document, steps) of accepted documents.  The document-level theorems (C01_three_rounds,
+    C02_document_round_trip_decidable), evaluated by the extracted model on the model the IMPLEMENTATION returned for the
+    document (wire op 208): where model_okb says they apply, the implementation's second model must be [canonical m1] and
+    its second rendering must be its first rendering, byte for byte."""
+    if not items:
+        return
+    try:
+        th = ctx.model(tf.FAM, ["(208 %s)" % sexp.enc(steps[0][0]) for _, steps in items])
+    except core.ModelUnavailable:
+        return
+    for (d, steps), r8 in zip(items, th):
+        if not r8:
+            continue
+        ctx.count("theorem_document_applicable" if r8[0] == 1 else "theorem_document_not_applicable")
+        if r8[0] != 1 or len(steps) < 2:
+            continue
+        if dslgen.canon_model(r8[1]) != steps[1][0]:
+            ctx.violation("theorem-rhs-differs", {"input": S(d), "text": d, "why": "the model read back from the first rendering differs from the canonical form the proved round trip promises",
+                                                  "promised": dslgen.canon_model(r8[1]), "got": steps[1][0]})
+        elif steps[1][1] != steps[0][1]:
+            ctx.violation("theorem-bytes-differ", {"input": S(d), "text": d, "why": "the second rendering differs from the first although the proved three-round theorem applies",
+                                                   "renderings": [s[1] for s in steps]})
+
+
 def check_docs(ctx, docs, label):
     docs = list(dict.fromkeys(docs))
     for via in ("json", "direct"):
+        applicable = []
         ir = [norm_impl_rt(r) for r in impl_rt(ctx, docs, via)]
         try:
             mr = [norm_model_rt(r) for r in model_rt(ctx, docs, via)]
@@ -86,11 +112,14 @@ def check_docs(ctx, docs, label):
                 why = "a second render/parse changes the model again"
             elif steps[2][1] != steps[1][1]:
                 why = "the rendering is not byte-stable after one round"
+            if not fail and via == "direct":
+                applicable.append((d, steps))
             if why:
                 ctx.violation("roundtrip-" + via, {"input": S(d), "text": d, "via": via, "why": why,
                                                    "renderings": [s[1] for s in steps]})
             elif len(ctx.samples) < 4 and len(d) < 300 and m1[2]:
                 ctx.sample({"text": d, "via": via, "rendering": steps[0][1]})
+        theorem_check(ctx, applicable)
 
 
 def run(ctx):
